@@ -4,7 +4,12 @@ set -u
 N=$1; P=$2; C=${3:-w-$N}
 export GOFLAGS=-mod=mod GOPROXY=off GOSUMDB=off GOTOOLCHAIN=local
 cd /verif
-git merge --no-ff -q -m "Merge branch 'w-$N' ($P)" $C || { echo "MERGE CONFLICT"; git status --short | grep '^U\|^AA\|^DU\|^UD' ; exit 1; }
+if ! git merge --no-ff -q -m "Merge branch 'w-$N' ($P)" $C; then
+  # evidence files are rewritten by every run: take the branch's copy, the check below rewrites it anyway
+  for f in $(git diff --name-only --diff-filter=U | grep '^evidence/'); do git checkout --theirs $f && git add $f; done
+  if git diff --name-only --diff-filter=U | grep -q .; then echo "MERGE CONFLICT"; git diff --name-only --diff-filter=U; exit 1; fi
+  git commit -qm "Merge branch 'w-$N' ($P)"
+fi
 lp=$(echo $P | tr A-Z a-z)
 for f in hooks/verif_export_*.go.txt; do
   b=$(basename $f .txt)
